@@ -1,0 +1,6 @@
+//go:build !verif
+// +build !verif
+
+package backend
+
+func (b *backend) verifStopped() bool { return false }
